@@ -331,6 +331,9 @@ func c05Write(matFile string, ms []c05Mesh) (string, []byte) {
 		if err := obj.WriteMeshes(in, matFile, &buf); err != nil {
 			return "err"
 		}
+		if buf.Len() > 32<<20 { // far beyond anything a generated scene can legitimately produce: do not ship it around
+			return fmt.Sprintf("oversize-output len=%d", buf.Len())
+		}
 		text = buf.Bytes()
 		return "ok " + hx(text)
 	})
